@@ -69,6 +69,11 @@ def config(draw, max_len, fmts=("default",), keep=None, min_len=1):
         "keep": draw(st.booleans()) if keep is None else keep,
         "fmt": draw(st.sampled_from(list(fmts))),
     }
+    if draw(st.integers(0, 9)) == 0:
+        # boundary class: reductions fire almost every epoch and the rate passes through 2 -> 1, where the
+        # change equals epsilon = 10**0 exactly (must count as negligible)
+        cfg.update({"eps": 0, "factor": 0.5, "lr_mode": "opt", "lr_exp": draw(st.integers(1, 3)), "rlr_thr": 2.0,
+                    "rlr_pat": 1, "rlr_burn": 0, "rlr_cool": draw(st.integers(0, 1)), "es_thr": draw(st.sampled_from([0.0, 0.25]))})
     cfg["val"] = draw(_metric_seq(n))
     cfg["train"] = draw(st.lists(dyadic(4, 0, 8), min_size=n, max_size=n))
     return cfg
@@ -133,6 +138,8 @@ def _classes(ref, fired_es, fired_rlr, reduced, negligible, restarted_inside, cf
         cl.append("budget_reached")
     if cfg["rlr_cool"] and fired_rlr:
         cl.append("cooldown_used")
+    if ref.eps_boundary:
+        cl.append("change_equals_epsilon")
     return cl
 
 
@@ -217,7 +224,7 @@ def _model_strategy(tier):
           doc="generated parameters + metric history (+ restarts when a history file exists): decision, countdowns, "
               "rate, optimizer groups after every epoch == explicit-reference-value model",
           required_classes=["early_stop_fired", "rate_reduced", "fired_after_reset", "negligible_change",
-                            "restart_inside", "budget_reached"])
+                            "restart_inside", "budget_reached", "change_equals_epsilon"])
 def _model_check(case):
     storage = case["storage"]
     restarts = [tuple(r) for r in case["restarts"]]
@@ -232,26 +239,29 @@ def _model_check(case):
 # ---------------------------------------------------------------- sub-check: exhaustive small grid
 
 
-_ENUM_VALUES = [2.0, 1.5, 1.25]   # differences: 0.5 (== threshold), 0.25 (< threshold), 0.75
+_ENUM_STEPS = [-0.5, -0.25, 0.0, 0.25]   # equal to the threshold / half of it (two in a row undercut a held reference) / flat / worse
 
 
 def _enum_strategy(tier):
     length = 5 if tier == "quick" else 7
     out = []
     for es_pat, es_burn, rlr_pat, rlr_burn, rlr_cool in itertools.product((1, 2), (0, 1), (1, 2), (0, 1), (0, 1)):
-        for vals in itertools.product(_ENUM_VALUES, repeat=length):
+        for steps in itertools.product(_ENUM_STEPS, repeat=length - 1):
+            vals = [4.0]
+            for d in steps:
+                vals.append(vals[-1] + d)
             out.append({
-                "num_epochs": None, "es_thr": 0.5, "es_pat": es_pat, "es_burn": es_burn,
+                "num_epochs": None, "es_thr": 0.5, "es_pat": es_pat + 1, "es_burn": es_burn,
                 "rlr_thr": 0.5, "rlr_pat": rlr_pat, "rlr_burn": rlr_burn, "rlr_cool": rlr_cool,
                 "factor": 0.5, "eps": -8, "lr_mode": "opt", "lr_exp": 4, "groups": 1, "keep": True, "fmt": "default",
-                "val": list(vals), "train": [1.0] * length, "storage": "mem", "restarts": [],
+                "val": vals, "train": [1.0] * length, "storage": "mem", "restarts": [],
             })
     return out
 
 
 subcheck("C15", "decisions_enum", _enum_strategy, 0, 0, exhaustive=True,
-         doc="every metric sequence of length 5|7 over {2, 1.5, 1.25} (steps equal to / below / above the threshold 0.5) x "
-             "patience {1,2} x burn-in {0,1} x cool-down {0,1}, in memory: every epoch == reference model",
+         doc="every metric walk of length 5|7 from 4.0 with steps {-0.5 (== threshold), -0.25, 0, +0.25} x stop patience {2,3} x "
+             "rate patience {1,2} x burn-ins {0,1} x cool-down {0,1}, in memory: every epoch == reference model",
          required_classes=["early_stop_fired", "rate_reduced", "fired_after_reset"])(_model_check)
 
 
